@@ -170,11 +170,19 @@ func judgeSeparator(c *Ctx, fi *FuncInfo, lp ast.Stmt, body *ast.BlockStmt, is *
 	start := int64(0)
 	startKnown := false
 	var bound ast.Expr
+	boundTxt := ""
 	switch t := lp.(type) {
 	case *ast.RangeStmt:
 		if t.Key != nil {
 			iv = identObj(info, t.Key)
 			startKnown = true
+			// ranging over a slice or array visits indices 0..len-1
+			if tt := info.TypeOf(t.X); tt != nil {
+				switch tt.Underlying().(type) {
+				case *types.Slice, *types.Array:
+					boundTxt = "len(" + exprStr(t.X) + ")"
+				}
+			}
 		}
 	case *ast.ForStmt:
 		if as, ok := t.Init.(*ast.AssignStmt); ok && len(as.Lhs) == 1 && len(as.Rhs) == 1 {
@@ -186,6 +194,7 @@ func judgeSeparator(c *Ctx, fi *FuncInfo, lp ast.Stmt, body *ast.BlockStmt, is *
 		if be, ok := ast.Unparen(t.Cond).(*ast.BinaryExpr); ok && t.Cond != nil {
 			if identObj(info, be.X) == iv && be.Op == token.LSS {
 				bound = be.Y
+				boundTxt = exprStr(be.Y)
 			}
 		}
 	}
@@ -285,9 +294,10 @@ func judgeSeparator(c *Ctx, fi *FuncInfo, lp ast.Stmt, body *ast.BlockStmt, is *
 			}
 		}
 		// trailing form: i+1 < N  /  i < N-1 after an unconditional element
-		if bound != nil && allTop {
+		_ = bound
+		if boundTxt != "" && allTop {
 			l := exprStr(t.X)
-			if iv != nil && t.Op == token.LSS && (l == iv.Name()+" + 1" && exprStr(t.Y) == exprStr(bound) || l == iv.Name() && exprStr(t.Y) == exprStr(bound)+" - 1") {
+			if iv != nil && t.Op == token.LSS && (l == iv.Name()+" + 1" && exprStr(t.Y) == boundTxt || l == iv.Name() && exprStr(t.Y) == boundTxt+" - 1") {
 				return true, "trailing: separator after every element except the last (i+1 < bound)"
 			}
 		}
@@ -306,6 +316,29 @@ func judgeSeparator(c *Ctx, fi *FuncInfo, lp ast.Stmt, body *ast.BlockStmt, is *
 				if e.guardIf != nil {
 					if gb, ok := ast.Unparen(e.guardIf.Cond).(*ast.BinaryExpr); ok && identObj(info, gb.X) == iv && gb.Op == token.GEQ && exprStr(gb.Y) == exprStr(S) {
 						nested = true
+					}
+				}
+			}
+			if !nested && allTop {
+				// early-continue form: `if i < S { continue }` as a top-level statement before the
+				// separator, elements written unconditionally after it
+				for _, st := range body.List {
+					if st.Pos() >= is.Pos() {
+						break
+					}
+					g, ok := st.(*ast.IfStmt)
+					if !ok || g.Init != nil || g.Else != nil || len(g.Body.List) != 1 {
+						continue
+					}
+					br, isBr := g.Body.List[0].(*ast.BranchStmt)
+					gb, isBin := ast.Unparen(g.Cond).(*ast.BinaryExpr)
+					if isBr && br.Tok == token.CONTINUE && br.Label == nil && isBin && identObj(info, gb.X) == iv && gb.Op == token.LSS && exprStr(gb.Y) == exprStr(S) {
+						nested = true
+						for _, e := range elems {
+							if e.call.Pos() < g.End() {
+								nested = false // an element written before the window test
+							}
+						}
 					}
 				}
 			}
